@@ -19,7 +19,9 @@ RULE = ("histories add*/list(sorter) on Sorter and MafSorter through the public 
         "contig list (same names ranked differently, names left out -> the add must raise ValueError, no list); "
         "two or three sorters ALIVE at the same time in one interpreter sharing the temporary directory, their adds and "
         "iterations interleaved; callers that re-use ONE record object (MafRecord, or a mutable item of the generic "
-        "sorter) and edit it in place between adds - the oracle compares with the texts as they were at hand-over. Streams: valid, single-defect (one raising item), boundary (n multiple of cap, n=0, "
+        "sorter) and edit it in place between adds - the oracle compares with the texts as they were at hand-over; about half of the cases iterate through the other public entry points (next() by hand and beyond "
+        "exhaustion, a partial iteration followed by a fresh iter(), _MergingIterator/_SortedIterator driven directly "
+        "over the sorter's spill files through __iter__/next()/__next__/peek_key/has_next/close, also closed early). Streams: valid, single-defect (one raising item), boundary (n multiple of cap, n=0, "
         "cap=1, cap=n, cap=n+1, all ties), adversarial (falsy keys/values, cap 0). Every case is also run under a "
         "second (capacity, policy, insertion order) and its key sequence compared. Non-trivial: at least one "
         "iteration returning two or more records; distinct by hash of the case")
@@ -128,7 +130,7 @@ def make_generic(case, cap, always, tmp):
                 raise TypeError("no key for the decoded copy")
             return py_key("t/int" if fl == "mut" else fl, x[0])
         codec = TupleCodec()
-    return Sorter(cap, codec, key, tmp_dir=tmp, always_spill=always), key
+    return Sorter(cap, codec, key, tmp_dir=tmp, always_spill=always), key, codec
 
 
 # ------------------------------------------------------------ MAF items
@@ -208,7 +210,7 @@ def make_maf(case, cap, always, tmp, scheme):
     if case["codec"] == "scheme" and always and case.get("api", "MafSorter") == "MafSorter":
         s = MafSorter(case["order"], scheme=scheme, max_objects_in_ram=cap, contigs=contigs)
         s._tmp_dir = tmp      # MafSorter has no tmp_dir parameter; only the location of the spill files changes
-        return s, SortOrder.find(case["order"])(contigs=contigs).sort_key()
+        return s, SortOrder.find(case["order"])(contigs=contigs).sort_key(), None
     so = SortOrder.find(case["order"])(contigs=contigs)
     if case["codec"] == "scheme":
         codec = MafSorterCodec(scheme=scheme)
@@ -216,7 +218,7 @@ def make_maf(case, cap, always, tmp, scheme):
         codec = MafSorterCodec(column_names=list(COLS))
     else:
         codec = MafSorterCodec()
-    return Sorter(cap, codec, so.sort_key(), tmp_dir=tmp, always_spill=always), so.sort_key()
+    return Sorter(cap, codec, so.sort_key(), tmp_dir=tmp, always_spill=always), so.sort_key(), codec
 
 
 # ------------------------------------------------------------ generation
@@ -352,7 +354,28 @@ def _gen_sessions(rng, stream):
     return {"stream": stream, "flavour": "sessions", "sessions": ss}
 
 
+def _style(rng, c):
+    """a share of the iterations goes through the other public entry points"""
+    if c["flavour"] in ("sessions", "interleaved"):
+        for x in c["sessions"]:
+            _style(rng, x)
+        return c
+    r = rng.random()
+    if r < 0.2:
+        c["iter_style"] = "next-beyond"
+    elif r < 0.35:
+        c["iter_style"] = "partial-then-fresh"
+        c["pulls"] = rng.randint(0, 4)
+    elif r < 0.55:
+        c["iter_style"] = "classes"
+    return c
+
+
 def generate(rng, n):
+    return [_style(rng, c) for c in _generate(rng, n)]
+
+
+def _generate(rng, n):
     out = []
     for _ in range(n):
         stream = rng.choice(["valid", "valid", "boundary", "defect", "adversarial"])
@@ -415,6 +438,14 @@ def corpus():
         dict(_maf_session(["chr1", "chr2", "chrX"], "BarcodesAndCoordinate"), cap=10, always=False, reuse=True, codec="scheme"),
         {"stream": "corpus", "flavour": "mut", "cap": 3, "always": True, "off": 0, "reuse": True,
          "ops": _ops([[3, 0, 0], [1, 1, 0], [2, 2, 0], [1, 3, 0], [0, 4, 0]], True, []), "alt": alt},
+        # the cursor classes through their own methods (next() aliases, __iter__, beyond exhaustion, closed early)
+        {"stream": "corpus", "flavour": "t/int", "cap": 2, "always": True, "off": 0, "iter_style": "classes",
+         "ops": _ops([[3, 0, 0], [1, 1, 0], [2, 2, 0], [1, 3, 0], [0, 4, 0]], True, []), "alt": alt},
+        dict(_maf_session(["chr1", "chr2", "chrX"], "Coordinate"), cap=3, iter_style="classes"),
+        {"stream": "corpus", "flavour": "t/str", "cap": 2, "always": True, "off": 0, "iter_style": "next-beyond",
+         "ops": _ops([[3, 0, 0], [0, 1, 0], [2, 2, 0]], True, []), "alt": alt},
+        {"stream": "corpus", "flavour": "pint", "cap": 2, "always": False, "off": 1, "iter_style": "partial-then-fresh", "pulls": 2,
+         "ops": _ops([[2, 0, 0], [0, 0, 0], [1, 0, 0]], True, []), "alt": alt},
         # seeded change: spill files named by pid and chunk number -> two sorters alive at the same time
         # overwrote each other's chunks
         {"stream": "corpus", "flavour": "interleaved", "schedule": [0, 1, 0, 1, 0, 1, 0, 1, 0, 1, 1, 0],
@@ -517,8 +548,10 @@ class _Hist:
         fl = self.fl = case["flavour"]
         self.scheme = _scheme() if fl == "maf" else None
         self.ranks = maf_rank_table(case) if fl == "maf" else None
-        self.sorter, self.kf = (make_maf(case, cap, always, tmp, self.scheme) if fl == "maf"
+        self.sorter, self.kf, self.codec = (make_maf(case, cap, always, tmp, self.scheme) if fl == "maf"
                                 else make_generic(case, cap, always, tmp))
+        self.tmp = tmp
+        self.own_tmp = True      # False when other live sorters spill into the same directory
         self.steps, self.details = [], []
         self.added = []          # [rank, id, text, values] of every item handed over, as it was at hand-over
         self.shared = None       # the ONE object a re-using caller fills again and again
@@ -566,11 +599,52 @@ class _Hist:
             self.details.append(None)
             return
         got, exc = [], None
+        api = []                 # problems seen while going through the alternative public entry points
+        style = case.get("iter_style", "for")
         try:
-            for r in sorter:
-                got.append(r)
+            if style == "for":
+                for r in sorter:
+                    got.append(r)
+            elif style == "partial-then-fresh":
+                # pull a few records, abandon the iterator, start again with a fresh iter(): everything comes back
+                it = iter(sorter)
+                part = []
+                for _ in range(case.get("pulls", 1)):
+                    try:
+                        part.append(next(it))
+                    except StopIteration:
+                        break
+                del it
+                for r in sorter:
+                    got.append(r)
+                if len(part) > len(got):
+                    api.append("partial-iteration-returned-more-than-the-full-one")
+            else:
+                # next() by hand, and beyond exhaustion: StopIteration has to be raised again and again
+                it = iter(sorter)
+                if iter(it) is not it:
+                    api.append("iter(iterator)-is-not-the-iterator")
+                while len(got) <= len(added) + 3:
+                    try:
+                        got.append(next(it))
+                    except StopIteration:
+                        break
+                else:
+                    api.append("iterator-never-raises-StopIteration")
+                for _ in range(2):
+                    try:
+                        extra = next(it)
+                        api.append("next()-after-exhaustion-returned-a-record")
+                        got.append(extra)
+                    except StopIteration:
+                        pass
         except Exception as e:  # noqa: BLE001
             exc = exc_code(e)
+        if style == "classes" and exc is None and self.own_tmp and self.codec is not None:
+            try:
+                api += self._cursor_classes(got)
+            except Exception as e:  # noqa: BLE001
+                api.append("cursor-classes-raised-%s" % type(e).__name__)
         items, texts, keys_sorted = [], [], True
         prev = None
         for r in got:
@@ -595,7 +669,91 @@ class _Hist:
                 pass
         self.steps.append(_step(case, items, exc))
         self.details.append({"n_items": len(items), "raw_keys": [x[0] for x in items], "texts": texts,
-                             "sorted_by_real_lt": keys_sorted, "added": [list(a) for a in added]})
+                             "sorted_by_real_lt": keys_sorted, "added": [list(a) for a in added], "api": api})
+
+    def _ident(self, r):
+        if self.fl == "maf":
+            return str(r)
+        return repr(tuple(r[:3]) if self.fl not in PLAIN else r)
+
+    def _cursor_classes(self, got):
+        """_MergingIterator and _SortedIterator over the spill files of this sorter, through their own public
+        methods: __iter__, next(), __next__, peek_key(), has_next(), close()"""
+        from maflib.sorter import _MergingIterator, _SortedIterator
+        codec, kf = self.codec, self.kf
+        paths = [os.path.join(self.tmp, f) for f in sorted(os.listdir(self.tmp))]
+        bad = []
+        if not paths:
+            return bad
+        want = sorted(self._ident(r) for r in got)
+
+        def drain(it, use_next_alias):
+            out = []
+            while len(out) <= len(want) + 3:
+                try:
+                    out.append(it.next() if use_next_alias else next(it))
+                except StopIteration:
+                    return out
+            bad.append("cursor-never-raises-StopIteration")
+            return out
+
+        m = _MergingIterator(paths=paths, codec=codec, key_func=kf)
+        if iter(m) is not m:
+            bad.append("merging-iterator-__iter__-is-not-self")
+        seq = drain(m, True)
+        for _ in range(2):
+            try:
+                m.next()
+                bad.append("merging-iterator-next()-after-exhaustion-returned")
+            except StopIteration:
+                pass
+        if sorted(self._ident(r) for r in seq) != want:
+            bad.append("merging-iterator-next()-is-not-a-permutation: %d of %d" % (len(seq), len(want)))
+        ks = [kf(r) for r in seq]
+        if any(ks[i + 1] < ks[i] for i in range(len(ks) - 1)):
+            bad.append("merging-iterator-next()-not-sorted")
+        m.close()
+        union = []
+        for n, pth in enumerate(paths):
+            c = _SortedIterator(path=pth, codec=codec, key_func=kf)
+            if iter(c) is not c:
+                bad.append("sorted-iterator-__iter__-is-not-self")
+            if not c.has_next() or c.peek_key() is None:
+                bad.append("sorted-iterator-on-a-spill-file-has-no-next")
+            one = drain(c, n % 2 == 0)
+            for _ in range(2):
+                try:
+                    c.next()
+                    bad.append("sorted-iterator-next()-after-exhaustion-returned")
+                except StopIteration:
+                    pass
+            if c.has_next() or c.peek_key() is not None:
+                bad.append("sorted-iterator-exhausted-but-has_next")
+            k1 = [kf(r) for r in one]
+            if any(k1[i + 1] < k1[i] for i in range(len(k1) - 1)):
+                bad.append("spill-file-not-sorted")
+            union += one
+            c.close()
+            # closed early: the record already read is still handed out, then the cursor is exhausted
+            c2 = _SortedIterator(path=pth, codec=codec, key_func=kf)
+            c2.close()
+            try:
+                first = c2.next()
+                if not one or self._ident(first) != self._ident(one[0]):
+                    bad.append("sorted-iterator-closed-early-returned-a-different-record")
+            except StopIteration:
+                bad.append("sorted-iterator-closed-early-lost-the-record-it-had-read")
+            try:
+                c2.next()
+                bad.append("sorted-iterator-closed-early-went-on-reading")
+            except StopIteration:
+                pass
+            except Exception as e:  # noqa: BLE001
+                bad.append("sorted-iterator-closed-early-raised-%s" % type(e).__name__)
+            c2.close()
+        if sorted(self._ident(r) for r in union) != want:
+            bad.append("spill-files-together-are-not-the-records: %d of %d" % (len(union), len(want)))
+        return bad
 
     def finish(self):
         try:
@@ -628,6 +786,8 @@ def run_impl(case):
         # operations are interleaved as the schedule says; all are closed at the end
         try:
             hs = [_Hist(c, c["cap"], c["always"], tmp) for c in case["sessions"]]
+            for h in hs:
+                h.own_tmp = False
             pos = [0] * len(hs)
             try:
                 for k in case["schedule"]:
@@ -720,6 +880,8 @@ def oracle(case, obs):
             if vals is not None and vals not in src[(i, text)]:
                 out.append("values-changed at op %d: %r" % (n, vals[:6]))
                 break
+        for pb in d.get("api") or []:
+            out.append("%s at op %d (iter_style=%s)" % (pb, n, case.get("iter_style", "for")))
         if last_keys is not None and last_keys != d["raw_keys"]:
             out.append("re-iteration-differs at op %d" % n)
         last_keys = d["raw_keys"]
@@ -749,7 +911,8 @@ def classify(case, obs):
         kinds = sorted(set((c["order"][0] + ("c" if case_contigs(c) else "-")) for c in case["sessions"]))
         return "%s/sessions=%d/%s" % (case["stream"], len(case["sessions"]), "+".join(kinds))
     n = sum(1 for o in case["ops"] if o[0] == "add")
-    fl = (case["flavour"] if case["flavour"] != "maf" else "maf/" + case["codec"]) + ("/reuse" if case.get("reuse") else "")
+    fl = ((case["flavour"] if case["flavour"] != "maf" else "maf/" + case["codec"]) + ("/reuse" if case.get("reuse") else "")
+          + ("/" + case["iter_style"] if case.get("iter_style") else ""))
     if obs is None:
         return "%s/%s/error" % (case["stream"], fl)
     chunks = "nospill" if (not case["always"] and n < max(case["cap"], 1)) else ("1chunk" if n <= max(case["cap"], 1) else "merge")
